@@ -134,7 +134,17 @@ func (g *dg) val(depth int) string {
 
 func (g *dg) form() string {
 	v := g.val(3)
-	switch g.n(0, 27, "form") {
+	switch g.n(0, 30, "form") {
+	case 28:
+		// listings printed for the user: every name, in a defined order
+		return g.pick("helpform", "(help:help-package-symbols 'user true)", "(help:help-package-symbols 'lisp true)", "(help:help-package-symbols \"json\" true)",
+			"(help:help-package-symbols 'string)", "(help:help-package 'time)", "(help:help-packages)", "(help:help 'car)", "(help:help 'no-such-thing)")
+	case 29, 30:
+		// an invalid pattern given as text: the error (with its location and
+		// stack) belongs to THIS program, whoever used the same text before
+		bad := g.pick("badre", "a(b", "[z-a]", "*x", "(?P<n>", "x{2,1}", "\\\\")
+		return fmt.Sprintf("(progn %s (handler-bind ((condition (lambda (c &rest d) (probe 1 c d) (rethrow)))) (regexp:%s \"%s\"%s)))",
+			g.val(1), g.pick("refn", "regexp-match?", "regexp-match?", "regexp-compile", "regexp-pattern"), bad, g.pick("rearg", " \"abc\"", "", " \"abc\""))
 	case 26:
 		// an anonymous schema validator fails: its generated name shows up in
 		// the Go error string and the stack trace
